@@ -16,8 +16,12 @@ def query_summary(ctx, m):
                     and not (isinstance(getattr(n, "_parent", None), ast.Call) and getattr(n, "_parent").func is n))})
     base_calls = sorted({c.func.attr for c in q.calls(m) if isinstance(c.func, ast.Attribute) and is_self_attr(c.func.value, BASE)})
     self_calls = sorted({c.func.attr for c in q.calls(m) if isinstance(c.func, ast.Attribute) and isinstance(c.func.value, ast.Name) and c.func.value.id == "self"})
-    gated = any(isinstance(n, ast.BoolOp) and isinstance(n.op, ast.And) and "include_base" in q.names_in(n) and any(is_self_attr(x, BASE) for x in walk_no_nested(n))
-                for n in walk_no_nested(m.node)) or not base_calls
+    # every call on the base format lies behind the `include_base` test (any spelling: conjunct, nested if, negated guard clause)
+    cfg_ = ctx.cfg(m)
+    inc_edges = [e.id for e in cfg_.nodes if (e.kind == "T" and isinstance(e.ast, ast.Name) and e.ast.id == "include_base")
+                 or (e.kind == "F" and isinstance(e.ast, ast.UnaryOp) and isinstance(e.ast.op, ast.Not) and isinstance(e.ast.operand, ast.Name) and e.ast.operand.id == "include_base")]
+    bcalls = [n for c in q.calls(m) if isinstance(c.func, ast.Attribute) and is_self_attr(c.func.value, BASE) for n in cfg_.nodes_of(c)]
+    gated = (not base_calls) or (bool(inc_edges) and all(any(cfg_.dominates(e, b.id) for e in inc_edges) for b in bcalls))
     order = merge_order(m)
     alias = any(r.value is not None and is_self_attr(r.value) for r in q.returns(m))
     raises = sorted({norm(r.exc.func if isinstance(r.exc, ast.Call) else r.exc) for r in q.raises(m) if r.exc is not None})
